@@ -9,7 +9,7 @@ from typing import Any, Dict, List, Optional, Set, Tuple
 
 from .. import termrules as T
 from ..report import AnalysisError, Ctx
-from ..values import Sym
+from ..values import RefV, Sym
 
 EXPLANATION = (
     "Static analysis of the three shorthands and of functions_ext.py. Each shorthand is evaluated by the abstract "
@@ -92,7 +92,14 @@ def _check_chain(ctx: Ctx, env, label: str, modname: str, fname: str, visitor_su
         key = f"{label}|{p.cond_str()[:70]}"
         where = m.loc(fn)
         if p.outcome != "return":
-            # refusing (raising) is not a wrong result; only library/documented exceptions are expected here
+            # refusing (raising) is not a wrong result; only library/documented exceptions are expected here - but a
+            # programming error of the shorthand's own statements (a name never bound, text combined with a non-text) is
+            # raised for every filter: no row of the base query is ever selected
+            v = p.value
+            q = v.args[0].qual if isinstance(v, Sym) and v.op == "exc" and isinstance(v.args[0], RefV) else ""
+            if q in ("builtins.NameError", "builtins.UnboundLocalError", "builtins.TypeError", "builtins.AttributeError"):
+                ctx.fail("R1.shorthand-completes", key, f"{fname} raises {q.split('.')[-1]} at {p.where} "
+                         f"({p.cond_str()[:120] or 'unconditionally'}) instead of returning the filtered query", where)
             continue
         t = T.norm(p.value)
         base, calls = _chain(t)
